@@ -182,10 +182,6 @@ func (r *Report) finish() int {
 		fmt.Printf("VIOLATION property=%s replay=%s obligation=%s status=%s%s\n", rc.prop, path, o.Name, o.Res.Status, suffix)
 		violSamples = append(violSamples, o.Name)
 	}
-	for _, v := range r.extraViol {
-		violations++
-		fmt.Println(v)
-	}
 	// evidence
 	var samples []map[string]interface{}
 	for i, o := range r.obls {
@@ -209,6 +205,13 @@ func (r *Report) finish() int {
 		}
 		for _, n := range x.notes {
 			notes[n] = true
+		}
+	}
+	if rc.tier == "thorough" && rc.funcOnly == "" && !rc.noEvidence && rc.prop != "" {
+		r.runThorough(used)
+		for _, v := range r.extraViol {
+			violations++
+			fmt.Println(v)
 		}
 	}
 	var trusted []string
@@ -245,7 +248,8 @@ func (r *Report) finish() int {
 		"machine integers are treated as mathematical integers",
 		"termination is not proved (partial correctness)",
 		"sequential reasoning per call: no interleavings; shared state only through declared monitors",
-		"append allocates a fresh backing array (aliasing through spare capacity not modelled)")
+		"append allocates a fresh backing array (aliasing through spare capacity not modelled)",
+		"Go strings are modelled as sequences of Unicode code points: byte strings that are not valid UTF-8 are outside the model (encoding/json replaces invalid bytes by U+FFFD)")
 	sort.Strings(fnames)
 	cov := map[string]interface{}{
 		"obligations":              len(r.obls),
